@@ -12,10 +12,6 @@ import (
 // Check can be used to validate the relationships between the types.
 type Schema struct {
 	Types []Type
-
-	// rels stores the set of normalized relationships found in the
-	// schema's types (see buildRels).
-	rels map[Rel]struct{}
 }
 
 // AddType adds a type to the schema.
@@ -147,10 +143,10 @@ func (s *Schema) AddTwoWayRel(rel Rel) error {
 // relationships (two types where each has a relationship pointing to the other
 // type), only one of the two relationships will appear in the list.
 func (s *Schema) Rels() []Rel {
-	s.buildRels()
+	set := s.buildRels()
 
-	rels := make([]Rel, 0, len(s.rels))
-	for rel := range s.rels {
+	rels := make([]Rel, 0, len(set))
+	for rel := range set {
 		rels = append(rels, rel)
 	}
 
@@ -276,12 +272,16 @@ func (s *Schema) Check() []error {
 // For two-way relationships, only one is chosen to be part of the set (see
 // Rel.Normalize). The other one is left out to avoid duplication (the
 // information is already accessible through the inverse relationship).
-func (s *Schema) buildRels() {
-	s.rels = map[Rel]struct{}{}
+//
+// The schema is not modified, so Rels can be called concurrently.
+func (s *Schema) buildRels() map[Rel]struct{} {
+	rels := map[Rel]struct{}{}
 
 	for _, typ := range s.Types {
 		for _, rel := range typ.Rels {
-			s.rels[rel.Normalize()] = struct{}{}
+			rels[rel.Normalize()] = struct{}{}
 		}
 	}
+
+	return rels
 }
